@@ -13,7 +13,7 @@ with the cell state modelled:
                         the call must be restored on every path, early returns included).
 
 On the unchanged tree there is no suspicious getter and the family is empty. Candidates are replayed natively with a
-repetition battery: out(A^n . B) = out(A)^n . out(B) for pipelines that use macros, variables and selections (n = 100).
+repetition battery: out(A^n . B) = out(A)^n . out(B) for pipelines that use macros, variables and selections (n = 300).
 """
 import json, re
 import z3
@@ -37,8 +37,42 @@ def suspicious_getters(ctx):
             for bb in fn.blocks.values() if isinstance(fn.blocks, dict) else fn.blocks:
                 t = bb.term
                 if t.kind == 'call' and CELL_RX.search(t.data.get('func') or ''): why = CELL_RX.search(t.data['func']).group(1); break
+        if why is None:
+            why = _callee_with_cell(ctx, fn, 3)
         if why: out.append((name, fn, why))
     return out
+
+
+def _body_mentions_cell(fn):
+    for ty in fn.locals.values():
+        m = CELL_RX.search(ty or '')
+        if m: return m.group(1)
+    for bb in (fn.blocks.values() if isinstance(fn.blocks, dict) else fn.blocks):
+        if bb.term.kind == 'call' and CELL_RX.search(bb.term.data.get('func') or ''): return CELL_RX.search(bb.term.data['func']).group(1)
+    return None
+
+
+def _callee_with_cell(ctx, fn, depth, seen=None):
+    """a jawk body (Context methods, helpers) reached from the getter that keeps state in a cell / thread-local: the getter inherits it.
+    The output writers, the regex cache and clap are not reached from getters except through compile_regex, which is regex.cache_key."""
+    if depth == 0: return None
+    seen = seen if seen is not None else set()
+    for bb in (fn.blocks.values() if isinstance(fn.blocks, dict) else fn.blocks):
+        if bb.term.kind != 'call': continue
+        func = bb.term.data.get('func') or ''
+        if 'compile_regex' in func or 'dyn Get' in func or func.startswith(('<', 'std::', 'core::', 'alloc::')): continue
+        plain = re.sub(r'<[^<>]*>', '', func); plain = re.sub(r'<[^<>]*>', '', plain)
+        segs = [x for x in plain.split('::') if x]
+        if not segs: continue
+        cands = []
+        if len(segs) >= 2 and segs[-2] == 'Context': cands = [n for n in ctx.fns if re.search(r'^processor::<impl at [^>]*>::%s$' % re.escape(segs[-1]), n)]
+        else: cands = [n for n in ctx.fns if n == plain or n.endswith('::' + plain) or (len(segs) == 1 and n.split('::')[-1] == segs[0] and '<impl' not in n and '{' not in n)]
+        for n in cands[:3]:
+            if n in seen: continue
+            seen.add(n); f = ctx.fns[n]
+            w = _body_mentions_cell(f) or _callee_with_cell(ctx, f, depth - 1, seen)
+            if w: return f'{w} in {n[-50:]}'
+    return None
 
 
 def getter_purity(ctx):
@@ -111,7 +145,11 @@ def getter_purity(ctx):
             (r'Context::get_definition$|Context::get_variable_value$|Context::get_selected$', s_ctx_lookup),
             (r'as Clone>::clone$', s_clone_same), (r'^<Rc<.*> as Deref>::deref$', s_identity)]
     for name, fn, why in sus:
-        ex = ctx.exec(summaries=summ, max_visits=20)
+        inl = []
+        for n in ctx.fns:
+            m = re.match(r'^processor::<impl at [^>]*>::(\w+)$', n)
+            if m and _body_mentions_cell(ctx.fns[n]): inl.append((r'Context::%s$' % m.group(1), '^' + re.escape(n) + '$'))
+        ex = ctx.exec(summaries=summ, inline=inl, max_visits=20)
         selfty = re.sub(r"^&('\w+ )?", '', fn.params[0][1])
         def fresh(tag):
             st = State(); st.heap[0] = {}; st.meta[0] = ('globals', 'globals'); st.next_oid = max(st.next_oid, 1)
@@ -174,7 +212,10 @@ def getter_purity(ctx):
     replay_repetition(ctx, fam.candidates)
 
 
-PIPES = [(['--set', '@m=(+ . :k)', '--select', '(+ (set "k" 1 @m) (set "k" 10 @m))=r'], ['5', '7']),
+ENV_PAIRED = [(['--select', '(concat (env "jv_case_a") "/" (env "JV_CASE_A"))=a', '--select', '(concat "lower" "/" "UPPER")=b'], '1', {'jv_case_a': 'lower', 'JV_CASE_A': 'UPPER'}),
+              (['--select', '(concat (env "JV_CASE_A") "/" (env "jv_case_a"))=a', '--select', '(concat "UPPER" "/" "lower")=b'], '1 2', {'jv_case_a': 'lower', 'JV_CASE_A': 'UPPER'})]
+PIPES = [(['--set', '@m=.x', '--select', '(default @m "none")=v', '--select', '(default (@ "m") "none")=w'], ['{"y":1}', '{"x":2}']),
+         (['--set', '@m=(+ . :k)', '--select', '(+ (set "k" 1 @m) (set "k" 10 @m))=r'], ['5', '7']),
          (['--set', '@pct=(/ (* :part 100) .total)', '--select', '(set "part" .a @pct)=a', '--select', '(set "part" .b @pct)=b'], ['{"a":1,"b":3,"total":4}', '{"a":2,"b":2,"total":8}']),
          (['--set', '@double=(* . 2)', '--select', '(default @unit 1)=u', '--select', '@double=d'], ['3', '4']),
          (['--set', '@d=(* . 2)', '--filter', '(> @d 4)', '--select', '@d=d', '--select', '(default @nope "none")=n'], ['1', '3', '5']),
@@ -192,13 +233,13 @@ PAIRED = [(['--set', '@m=(+ . :k)', '--select', '(+ (set "k" 1 @m) (set "k" 10 @
 
 
 def replay_repetition(ctx, cands):
-    """out(A^n . B) = out(A)^n . out(B): a getter that remembers shows when values repeat; n = 100 so that counters that leak per
+    """out(A^n . B) = out(A)^n . out(B): a getter that remembers shows when values repeat; n = 300 so that counters that leak per
     evaluation reach their limits"""
     from .cli import run_driver, show
     if not cands: return
     found = None
-    for argv, stdin in PAIRED:
-        r = run_driver(ctx, argv + ['--style', 'consise'], stdin.encode())
+    for argv, stdin, *envd in [(a, b) for a, b in PAIRED] + [tuple(x) for x in ENV_PAIRED]:
+        r = run_driver(ctx, argv + ['--style', 'consise'], stdin.encode(), env=(envd[0] if envd else None))
         rows = []
         for ln in show(r['stdout']).splitlines():
             try: rows.append(json.loads(ln))
@@ -212,13 +253,13 @@ def replay_repetition(ctx, cands):
             r = run_driver(ctx, argv + ['--style', 'consise'], v.encode()); base[v] = (r['stdout'], r['result'])
         for a in vals:
             for b in vals:
-                stream = ' '.join([a] * 100 + [b] + [a] + [b]).encode()
+                stream = ' '.join([a] * 300 + [b] + [a] + [b]).encode()
                 r = run_driver(ctx, argv + ['--style', 'consise'], stream, timeout=60)
-                exp = base[a][0] * 100 + base[b][0] + base[a][0] + base[b][0]
+                exp = base[a][0] * 300 + base[b][0] + base[a][0] + base[b][0]
                 if r['stdout'] != exp or r['result'] != 'ok':
                     got = show(r['stdout']).splitlines(); ex_ = show(exp).splitlines()
                     k = next((i for i, (x, y) in enumerate(zip(got, ex_)) if x != y), min(len(got), len(ex_)))
-                    found = {'argv': argv, 'stdin': f'{a} x100, {b}, {a}, {b}', 'first_differing_row': k, 'expected_row': ex_[k] if k < len(ex_) else None, 'actual_row': got[k] if k < len(got) else None, 'result': r['result']}
+                    found = {'argv': argv, 'stdin': f'{a} x300, {b}, {a}, {b}', 'first_differing_row': k, 'expected_row': ex_[k] if k < len(ex_) else None, 'actual_row': got[k] if k < len(got) else None, 'result': r['result']}
                     break
             if found: break
         if found: break
